@@ -259,6 +259,38 @@ class BuiltDir:
                              types=[t for n, t in b.types.items() if n not in BUILTIN])
 
 
+def ty_of_obj(t):
+    if isinstance(t, NonNullType):
+        inner = ty_of_obj(t.type)
+        return [inner[0], True, inner[2]]
+    if isinstance(t, ListType):
+        return ["L", False, ty_of_obj(t.type)]
+    return ["N", False, t.name]
+
+
+def dump_sd(schema, sd):
+    """the schema description of a (derived) py_gql schema, for the types the
+    source description names: input fields are read from `.fields`"""
+    out = []
+    for td in sd["types"]:
+        t = schema.types.get(td["name"])
+        if t is None:
+            continue
+        if td["kind"] == "input":
+            fields = []
+            for f in t.fields:
+                fields.append({"name": f.name, "py": f.python_name, "type": ty_of_obj(f.type),
+                               "default": [f.default_value] if f.has_default_value else None})
+            out.append({"name": td["name"], "kind": "input", "fields": fields})
+        elif td["kind"] == "enum":
+            out.append({"name": td["name"], "kind": "enum",
+                        "values": [[v.name, list(v.value) if isinstance(v.value, tuple) else v.value]
+                                   for v in t.values]})
+        else:
+            out.append(dict(td))
+    return {"types": out}
+
+
 def _hashable(v):
     return tuple(v) if isinstance(v, list) else v
 
@@ -266,6 +298,10 @@ def _hashable(v):
 # ------------------------------------------------------- Coq serialisation
 def float_text(f):
     """positional decimal text of the shortest repr (canonical form of floats)"""
+    if f != f:
+        return "nan"
+    if f in (float("inf"), float("-inf")):
+        return "inf" if f > 0 else "-inf"
     d = decimal.Decimal(repr(f))
     t = format(d, "f")
     if "." not in t:
